@@ -78,6 +78,28 @@ def sig_K6(prop, cfg, issue):
 SIGS['K6'] = sig_K6
 
 
+def sig_K13(prop, cfg, issue):
+    """only the records that pair a fitness with the all-zero never-evaluated personal-best slot, on a reused space"""
+    pos = issue.get('position')
+    def zeros(x):
+        return all(zeros(y) for y in x) if isinstance(x, list) else x == 0
+    return (prop == 'C20' and (cfg.get('prior') or {}).get('same_space') and cfg.get('kind') in ('PSO', 'AIWPSO', 'RPSO')
+            and issue.get('what') == 'untruthful-record' and pos is not None and zeros(pos))
+
+
+SIGS['K13'] = sig_K13
+
+
+def sig_K14(prop, cfg, issue):
+    """only the best agent left over from an earlier task with another objective, while it is still the reported best"""
+    pr = cfg.get('prior') or {}
+    return (prop == 'C02' and pr.get('same_space') and pr.get('other_objective')
+            and (issue.get('what') == 'inherited-best-untruthful' or (issue.get('what') == 'best-not-min' and issue.get('stale_inherited'))))
+
+
+SIGS['K14'] = sig_K14
+
+
 # ------------------------------------------------------------------------------ witnesses
 def direct_k7_span(args):
     import lib
